@@ -374,6 +374,10 @@ def calls_in(node_ast):
         n = todo.pop()
         if isinstance(n, ast.Call):
             out.append(n)
+        if isinstance(n, ast.ExceptHandler):
+            if n.type is not None:
+                todo.append(n.type)
+            continue
         if isinstance(n, (ast.If, ast.While, ast.For, ast.With, ast.Try)):
             # compound statement: only its header expression belongs to this node
             if isinstance(n, (ast.If, ast.While)):
